@@ -1941,7 +1941,12 @@ class t2data(object):
         if 'connection' in self.short_output:
             self.history_connection = self.short_output['connection'][:]
         if 'generator' in self.short_output:
-            self.history_generator = self.short_output['generator'][:]
+            # generator history is specified by block:
+            self.history_generator = []
+            for gen in self.short_output['generator']:
+                if gen.block in self.grid.block: blk = self.grid.block[gen.block]
+                else: blk = gen.block
+                if blk not in self.history_generator: self.history_generator.append(blk)
         self.short_output = {}
 
     def convert_history_to_short(self):
@@ -1957,7 +1962,14 @@ class t2data(object):
             cons = [con for con in self.history_connection if isinstance(con, t2connection)]
             if cons: self.short_output['connection'] = cons
         if self.history_generator:
-            gens = [gen for gen in self.history_generator if isinstance(gen, t2generator)]
+            # generator history is specified by block- use all generators in those blocks:
+            gens = []
+            for item in self.history_generator:
+                if isinstance(item, t2generator): blkgens = [item]
+                elif isinstance(item, t2block):
+                    blkgens = [gen for gen in self.generatorlist if gen.block == item.name]
+                else: blkgens = []
+                gens += [gen for gen in blkgens if gen not in gens]
             if gens: self.short_output['generator'] = gens
         self.history_block = []
         self.history_connection = []
